@@ -32,6 +32,18 @@ var stuckHooked, stuckNested int
 // a step of its own for the read, so that the window between the two can be entered)
 var parkPoints = []string{"gau.afterRead", "gau.beforeLock", "coll.delete.afterRead", "coll.get", "value.get"}
 
+// family publish-window: the publication after the commit is a step of its own as well - a thread parked there has
+// stored its value and has not returned yet (what a subscriber with backpressure that is slow to receive does to a
+// writer): whatever a handler does between the save and its answer happens while other writers commit
+var parkPointsPub = append(append([]string{}, parkPoints...), "value.set.beforeSend", "coll.update.beforeSend")
+
+func pointsOf(sc Scenario) []string {
+	if sc.Pub {
+		return parkPointsPub
+	}
+	return parkPoints
+}
+
 // ---------------------------------------------------------------------------------------------
 // one hooked execution
 
@@ -47,13 +59,19 @@ type Run struct {
 	Stuck   bool          // nested run: the call did not return (a rival made from its callback waits for a lock the call holds)
 	// Changes: the steps of a hooked run after which a plain read of the resources showed something else than before
 	Changes []stepChange
+	// From: the yield point each step was released from ("start": the call was invoked at this step)
+	From []string
 }
 
 // stepChange: step Step (of thread T, inside its call Op) changed what the resources hold; Res is the result the
 // call reported at that very step ("" if the call had not returned yet)
 type stepChange struct {
-	Step          int
-	T             int
+	Step int
+	T    int
+	N    int // index of the call among the thread's calls
+	// AtSend: after the step the thread was parked in front of its publication (*.beforeSend): the step was the
+	// save of a call that has not returned yet; Res is then filled in when it does
+	AtSend        bool
 	Op            Op
 	Before, After string
 	Res           string
@@ -111,6 +129,7 @@ func runScheduled(ctl *k4.Controller, sc Scenario, prefix []int, choose func(ena
 		}
 		th := ths[pick]
 		wasStart := th.Point == "start"
+		from := th.Point
 		if wasStart {
 			inv[pick] = step
 		}
@@ -137,6 +156,7 @@ func runScheduled(ctl *k4.Controller, sc Scenario, prefix []int, choose func(ena
 			r.Results[pick] = append(r.Results[pick], fmt.Sprint("panic:", th.Panic))
 		}
 		r.Sched = append(r.Sched, pick)
+		r.From = append(r.From, from)
 		r.Enabled = append(r.Enabled, enabled)
 		now, ok := w.snapshotBounded()
 		if !ok {
@@ -149,7 +169,8 @@ func runScheduled(ctl *k4.Controller, sc Scenario, prefix []int, choose func(ena
 			return r
 		}
 		if now != snap {
-			ch := stepChange{Step: int(step), T: pick, Before: snap, After: now}
+			ch := stepChange{Step: int(step), T: pick, N: cur[pick], Before: snap, After: now,
+				AtSend: th.Status == k4.Parked && strings.HasSuffix(th.Point, ".beforeSend")}
 			if cur[pick] < len(sc.Progs[pick]) {
 				ch.Op = sc.Progs[pick][cur[pick]]
 			}
@@ -414,6 +435,10 @@ func judge(sc Scenario, hist []HOp, final map[int]P) *verdict {
 // the stored message as it is, whether or not the write is validated later.
 func judgeSteps(r *Run) *verdict {
 	for _, ch := range r.Changes {
+		if ch.AtSend && ch.Res == "" && ch.T < len(r.Results) && ch.N < len(r.Results[ch.T]) {
+			// the save of a call whose publication was a later step: judged by what the call reported in the end
+			ch.Res = r.Results[ch.T][ch.N]
+		}
 		if strings.HasPrefix(ch.Res, "ok:") && ch.Res != "ok:nil" {
 			continue
 		}
@@ -667,6 +692,9 @@ func genScenario(rng *rand.Rand, maxThreads, maxOps int) Scenario {
 	if mode != 6 && mode != 7 && mode != 13 && rng.Intn(6) == 0 {
 		sc.restrictWritable([]string{"a", "b"}[rng.Intn(2)])
 	}
+	if rng.Intn(5) == 0 && sc.spellable() {
+		sc.spell(rng) // the collection has an id interceptor and the callers do not agree on how to write an id
+	}
 	return sc
 }
 
@@ -737,6 +765,9 @@ func genNested(rng *rand.Rand) Scenario {
 	sc.Progs = [][]Op{{outer}}
 	if rng.Intn(6) == 0 {
 		sc.restrictWritable([]string{"a", "b"}[rng.Intn(2)])
+	}
+	if rng.Intn(4) == 0 && sc.spellable() {
+		sc.spell(rng)
 	}
 	return sc
 }
@@ -908,6 +939,15 @@ func pairScenarios() []Scenario {
 				Scenario{Init: map[string]P{"0": {1, 1}}, Clock: "f", Cands: []int{0}, Progs: [][]Op{{coll[i]}, {coll[j]}}})
 		}
 	}
+	// the same alphabet on a collection with an id interceptor, the first caller spelling the id its own way
+	for i := range coll {
+		for j := range coll {
+			sc := Scenario{Init: map[string]P{}, Clock: "t", Icpt: true, Progs: [][]Op{{sp(coll[i], 1)}, {sp(coll[j], j%2)}}}
+			if i != j && sc.spellable() {
+				out = append(out, sc)
+			}
+		}
+	}
 	for i := range val {
 		for j := i; j < len(val); j++ {
 			out = append(out,
@@ -994,7 +1034,7 @@ func main() {
 
 	// 1. witnesses: every schedule
 	exhaustiveCount := 0
-	for _, sc := range witnessScenarios() {
+	for _, sc := range append(witnessScenarios(), icptWitnesses()...) {
 		if stuckHooked >= 10 {
 			break
 		}
@@ -1062,8 +1102,10 @@ func main() {
 	ctl.Close()
 	hooked := len(cases)
 	phase("hooked")
+	pubFamily(f, res, rng, mon)
+	phase("publish-window")
 	// 4. nested rivals (hooks removed)
-	for _, sc := range nestedWitnesses() {
+	for _, sc := range append(nestedWitnesses(), nestedIcptWitnesses()...) {
 		if stuckNested < 3 {
 			record(sc, runNested(sc))
 		}
@@ -1135,14 +1177,10 @@ func main() {
 			mon.Count(codeOf(h.Res))
 		}
 		if v := judgeSteps(c.run); v != nil {
-			mon.Violate(v.sig, v.what, in, v.expected, v.observed)
+			mon.Violate(v.sig+sc.family(), v.what, in, v.expected, v.observed)
 		}
 		if v := judge(sc, c.run.Hist, c.run.Final); v != nil {
-			sig := v.sig
-			if sc.Nested {
-				sig += "/nested"
-			}
-			mon.Violate(sig, v.what, in, v.expected, v.observed)
+			mon.Violate(v.sig+sc.family(), v.what, in, v.expected, v.observed)
 		}
 	}
 
@@ -1156,6 +1194,21 @@ func main() {
 	if err := res.Write(f.Out); err != nil {
 		lib.Fatal(err)
 	}
+}
+
+// family: the qualifier a scenario's family adds to a signature
+func (sc Scenario) family() string {
+	q := ""
+	if sc.Icpt {
+		q += "/spelled-ids"
+	}
+	if sc.Pub {
+		q += "/publish-window"
+	}
+	if sc.Nested {
+		q += "/nested"
+	}
+	return q
 }
 
 // splitLin separates the model's linearization sequence from the rest of its answer.
@@ -1245,6 +1298,12 @@ func (sc Scenario) input(sched []int) map[string]any {
 	if sc.Writable != "" {
 		in["writable"] = sc.Writable
 	}
+	if sc.Icpt {
+		in["icpt"] = true
+	}
+	if sc.Pub {
+		in["pub"] = true
+	}
 	if sc.Nested {
 		in["mode"] = "nested"
 		in["nested"] = true
@@ -1265,6 +1324,10 @@ func (o Op) optionClass() string {
 		return "opts:trait-caller:publicationpb.ModelServer.UpdatePublication"
 	case "q":
 		return "opts:trait-caller:publicationpb.ModelServer.DeletePublication"
+	case "c":
+		return "opts:trait-handler:countpb.MemoryDevice.UpdateCount"
+	case "z":
+		return "opts:trait-handler:countpb.MemoryDevice.ResetCount"
 	}
 	if o.Gen {
 		parts = append(parts, "gen-id")
@@ -1383,7 +1446,13 @@ func stress(f lib.Flags, res *lib.Result, rng *rand.Rand) {
 	for _, sc := range witnessScenarios() {
 		scs = append(scs, sc)
 	}
+	scs = append(scs, icptWitnesses()...)
+	scs = append(scs, countWitnesses()...)
 	for i := 0; i < rounds; i++ {
+		if i%8 == 7 {
+			scs = append(scs, genCount(rng))
+			continue
+		}
 		scs = append(scs, genScenario(rng, 4, 2))
 	}
 	var mu sync.Mutex
@@ -1439,11 +1508,11 @@ func stress(f lib.Flags, res *lib.Result, rng *rand.Rand) {
 		defer ctl.Close()
 		searched := map[string]bool{}
 		for _, fd := range founds {
-			if searched[fd.v.sig] {
-				mon.Violate(fd.v.sig, fd.v.what, nil, fd.v.expected, fd.v.observed)
+			if searched[fd.v.sig+fd.sc.family()] {
+				mon.Violate(fd.v.sig+fd.sc.family(), fd.v.what, nil, fd.v.expected, fd.v.observed)
 				continue
 			}
-			searched[fd.v.sig] = true
+			searched[fd.v.sig+fd.sc.family()] = true
 			in := fd.sc.input(nil)
 			in["mode"] = "stress"
 			delete(in, "sched")
@@ -1457,7 +1526,7 @@ func stress(f lib.Flags, res *lib.Result, rng *rand.Rand) {
 					in["mode"] = "k4"
 				}
 			})
-			mon.Violate(fd.v.sig, fd.v.what, in, fd.v.expected, fd.v.observed)
+			mon.Violate(fd.v.sig+fd.sc.family(), fd.v.what, in, fd.v.expected, fd.v.observed)
 		}
 	}
 }
@@ -1543,7 +1612,7 @@ func replay(f lib.Flags) int {
 			}
 		}
 		if v := judge(sc, r.Hist, r.Final); v != nil {
-			fmt.Printf("STILL FAILS %s/nested: %s (expected %s, observed %s)\n", v.sig, v.what, v.expected, v.observed)
+			fmt.Printf("STILL FAILS %s: %s (expected %s, observed %s)\n", v.sig+sc.family(), v.what, v.expected, v.observed)
 			return 1
 		}
 		fmt.Println("replay: property holds on this input now")
@@ -1560,21 +1629,25 @@ func replay(f lib.Flags) int {
 		fmt.Println("replay: 20000 stress repetitions of the scenario satisfied the property")
 		return 0
 	}
-	ctl := k4.New(parkPoints...)
+	ctl := k4.New(pointsOf(sc)...)
 	defer ctl.Close()
 	r := runScheduled(ctl, sc, sc.Sched, nil)
 	fmt.Printf("replay schedule %v -> %s\n", r.Sched, r.canon())
 	if f.Driver != "" {
-		if ans, err := lib.RunOnce(f.Driver, []string{driverLine(sc, r.Progs, r.Sched)}); err == nil {
+		line := driverLine(sc, r.Progs, r.Sched)
+		if sc.Pub {
+			line = pubDriverLine(sc, r)
+		}
+		if ans, err := lib.RunOnce(f.Driver, []string{line}); err == nil {
 			fmt.Println("model:", ans[0])
 		}
 	}
 	if v := judgeSteps(r); v != nil {
-		fmt.Printf("STILL FAILS %s: %s (expected %s, observed %s)\n", v.sig, v.what, v.expected, v.observed)
+		fmt.Printf("STILL FAILS %s: %s (expected %s, observed %s)\n", v.sig+sc.family(), v.what, v.expected, v.observed)
 		return 1
 	}
 	if v := judge(sc, r.Hist, r.Final); v != nil {
-		fmt.Printf("STILL FAILS %s: %s (expected %s, observed %s)\n", v.sig, v.what, v.expected, v.observed)
+		fmt.Printf("STILL FAILS %s: %s (expected %s, observed %s)\n", v.sig+sc.family(), v.what, v.expected, v.observed)
 		return 1
 	}
 	fmt.Println("replay: property holds on this input now")
